@@ -189,6 +189,15 @@ def _decorate_namespace_function(
                 base_func = getattr(base, key)
                 base_contract_checker = icontract._checkers.find_checker(func=base_func)
 
+                if (
+                    base_contract_checker is not None
+                    and base_contract_checker is contract_checker
+                ):
+                    # The function is not an override, but the very function of the base put in the namespace
+                    # (*e.g.*, ``some_func = SomeBase.some_func``). It keeps the contracts of the base. It must not be
+                    # collapsed with itself or with the other bases as that would change the contracts of the base.
+                    return
+
                 # Ignore functions which don't have preconditions or postconditions
                 if base_contract_checker is not None:
                     base_preconditions.extend(base_contract_checker.__preconditions__)
